@@ -6,6 +6,7 @@
 -/
 import MotoModel.Proofs.DiskSector
 import MotoModel.Props.C19
+import MotoModel.Proofs.DiskWalkFuel
 namespace Moto.C18
 open Moto
 
@@ -80,6 +81,32 @@ theorem tape_steps_bound (fuel : Nat) : ∀ rest : Bytes, 7 * (Tape.readAllFuel 
         simp only [List.length_cons]
         omega
 
+/-- the fuel of the reading loop is never what stops it: with more fuel than bytes, any extra fuel
+    gives the same blocks -/
+theorem tape_fuel_enough : ∀ (fuel : Nat) (rest : Bytes), rest.length < fuel → ∀ k, Tape.readAllFuel (fuel + k) rest = Tape.readAllFuel fuel rest := by
+  intro fuel
+  induction fuel with
+  | zero => intro rest h; omega
+  | succ f ih =>
+    intro rest h k
+    have e : f + 1 + k = (f + k) + 1 := by omega
+    rw [e]
+    simp only [Tape.readAllFuel]
+    cases hn : Tape.nextBlock rest with
+    | mk ob rest' =>
+      cases ob with
+      | none => rfl
+      | some b =>
+        have := nextBlock_consumes rest b rest' hn
+        dsimp only
+        rw [ih rest' (by omega) k]
+
+/-- **C18 (the model's reading loop is the unbounded `while block is not None` loop)**: `readAll`
+    runs with a fuel of one more than the number of bytes; any larger fuel returns the same blocks, so
+    the loop always ends because no further block marker is found, never because the fuel ran out -/
+theorem tape_loop_complete (buf : Bytes) (k : Nat) : Tape.readAllFuel (buf.length + 1 + k) buf = Tape.readAll buf :=
+  tape_fuel_enough (buf.length + 1) buf (by omega) k
+
 theorem tape_blocks_bound (buf : Bytes) : 7 * (Tape.readAll buf).length ≤ buf.length := tape_steps_bound _ buf
 
 /-! ### disk: the chain walk is bounded whatever the table holds -/
@@ -120,6 +147,16 @@ theorem walk_bounded (bat : List Nat) (first : Nat) (chain : List Nat) (hlen : b
       obtain ⟨h1, h2⟩ := walkLoop_nodup bat bat.length first [first] (by simp)
       exact ⟨h1, by simp at h2; omega⟩
 
+/-- **C18 (the model's chain walk is the `while not block.isLast()` loop of the source)**: the walk
+    runs with a fuel of 160 steps; on every table the tools can load (a table of bytes, every status
+    valid — the others are refused when the table is read) any larger fuel returns the same chain: the
+    walk always ends on a last-block marker, a free or reserved block, or a block already visited, never
+    because the fuel ran out -/
+theorem disk_walk_complete (sd : Disk.Side) (bat : List Nat) (hb : Disk.getBat sd = .ok bat) (hbytes : ∀ s ∈ bat, s < 256)
+    (first : Nat) (hfirst : first < 160) (hf : Disk.isFree (bat.getD first 0) = false) (hr : Disk.isReserved (bat.getD first 0) = false) (k : Nat) :
+    Disk.walkLoop bat (bat.length + k) first [first] = Disk.walkLoop bat bat.length first [first] :=
+  Disk.walk_fuel_enough sd bat hb hbytes first hfirst hf hr k
+
 /-- a file never has more bytes than 160 blocks can hold plus one sector: memory is bounded -/
 theorem catalog_scan_bounded (sd : Disk.Side) : (Disk.slots sd).length = 112 := by
   simp [Disk.slots, Disk.catalogSectors, Disk.slotStarts, List.range']
@@ -133,10 +170,11 @@ theorem tape_confined (verbose : Bool) (archive : Str) (into : Option Str) (tape
       ∃ f, w.1 = pathJoin (Tape.targetDirOf archive into) f ∧ f.contains 47 = false :=
   C19.tape_extract_placement verbose archive into tape
 
-/-- one side: every file written is `sidePath/NAME.EXT` with no '/' and no NUL in the name -/
+/-- one side: every file written is `sidePath/NAME.EXT` with no '/' and no NUL in the name, and is
+    not the path the extractor was told to keep (the archive) -/
 theorem readEntries_writes (sd : Disk.Side) (bat : List Nat) (dir : Str) (entries : List Disk.Entry) : ∀ (st : Disk.RdState),
     ∀ w ∈ (Disk.readEntries sd bat (some dir) entries st).1.writes,
-      w ∈ st.writes ∨ ∃ f, w.1 = pathJoin dir f ∧ f.contains 47 = false ∧ f.contains 0 = false := by
+      w ∈ st.writes ∨ ∃ f, w.1 = pathJoin dir f ∧ f.contains 47 = false ∧ f.contains 0 = false ∧ Tape.collides st.keep w.1 = false := by
   induction entries with
   | nil => intro st w hw; simp [Disk.readEntries] at hw; exact Or.inl hw
   | cons e rest ih =>
@@ -148,15 +186,39 @@ theorem readEntries_writes (sd : Disk.Side) (bat : List Nat) (dir : Str) (entrie
       · exact Or.inl hw
       · split at hw
         · exact Or.inl hw
-        · rename_i h47 _
-          rcases ih _ w hw with h | h
-          · simp only [List.mem_append, List.mem_singleton] at h
-            rcases h with h | h
-            · exact Or.inl h
-            · refine Or.inr ⟨Disk.fileNameOf e, by rw [h], ?_, ?_⟩
-              · simp only [Bool.or_eq_true, not_or] at h47; simpa using h47.1
-              · simp only [Bool.or_eq_true, not_or] at h47; simpa using h47.2
-          · exact Or.inr h
+        · split at hw
+          · exact Or.inl hw
+          · rename_i h47 hcol _
+            rcases ih _ w hw with h | h
+            · simp only [List.mem_append, List.mem_singleton] at h
+              rcases h with h | h
+              · exact Or.inl h
+              · refine Or.inr ⟨Disk.fileNameOf e, by rw [h], ?_, ?_, ?_⟩
+                · simp only [Bool.or_eq_true, not_or] at h47; simpa using h47.1
+                · simp only [Bool.or_eq_true, not_or] at h47; simpa using h47.2
+                · rw [h]; simpa using hcol
+            · exact Or.inr h
+
+theorem readEntries_keep (sd : Disk.Side) (bat : List Nat) (sp : Option Str) (entries : List Disk.Entry) : ∀ (st : Disk.RdState),
+    (Disk.readEntries sd bat sp entries st).1.keep = st.keep := by
+  induction entries with
+  | nil => intro st; rfl
+  | cons e rest ih =>
+    intro st
+    simp only [Disk.readEntries]
+    split
+    · rfl
+    · cases sp with
+      | none => exact ih _
+      | some dir =>
+        dsimp only
+        split
+        · rfl
+        · split
+          · rfl
+          · split
+            · rfl
+            · exact ih _
 
 /-- a path the disk extractor may write: the destination, a `sideN` directory, one component
     without '/' and without NUL -/
@@ -164,8 +226,8 @@ def DiskWritable (target : Str) (path : Str) : Prop :=
   ∃ k f, path = pathJoin (pathJoin target (Tape.str "side" ++ digits k)) f ∧ f.contains 47 = false ∧ f.contains 0 = false
 
 theorem readSides_writes (target : Str) : ∀ (sides : List Disk.Side) (i : Nat) (st : Disk.RdState),
-    (∀ w ∈ st.writes, DiskWritable target w.1) →
-    ∀ w ∈ (Disk.readSides (some target) sides i st).1.writes, DiskWritable target w.1 := by
+    (∀ w ∈ st.writes, DiskWritable target w.1 ∧ Tape.collides st.keep w.1 = false) →
+    ∀ w ∈ (Disk.readSides (some target) sides i st).1.writes, DiskWritable target w.1 ∧ Tape.collides st.keep w.1 = false := by
   intro sides
   induction sides with
   | nil => intro i st h w hw; simp only [Disk.readSides] at hw; exact h w hw
@@ -183,20 +245,25 @@ theorem readSides_writes (target : Str) : ∀ (sides : List Disk.Side) (i : Nat)
         rw [hl] at hw
         dsimp only at hw
         have hside : ∀ w' ∈ (Disk.readEntries sd bat (some (pathJoin target (Tape.str "side" ++ digits i))) entries
-            { l := Disk.onBeginOfSide st.l i, mkdirs := st.mkdirs ++ [pathJoin target (Tape.str "side" ++ digits i)], writes := st.writes }).1.writes,
-            DiskWritable target w'.1 := by
+            { l := Disk.onBeginOfSide st.l i, mkdirs := st.mkdirs ++ [pathJoin target (Tape.str "side" ++ digits i)], writes := st.writes, keep := st.keep }).1.writes,
+            DiskWritable target w'.1 ∧ Tape.collides st.keep w'.1 = false := by
           intro w' hw'
-          rcases readEntries_writes sd bat _ entries _ w' hw' with h1 | ⟨f, hf, h47, h0⟩
+          rcases readEntries_writes sd bat _ entries _ w' hw' with h1 | ⟨f, hf, h47, h0, hc⟩
           · exact h w' h1
-          · exact ⟨i, f, hf, h47, h0⟩
+          · exact ⟨⟨i, f, hf, h47, h0⟩, hc⟩
+        have hkeep := readEntries_keep sd bat (some (pathJoin target (Tape.str "side" ++ digits i))) entries
+            { l := Disk.onBeginOfSide st.l i, mkdirs := st.mkdirs ++ [pathJoin target (Tape.str "side" ++ digits i)], writes := st.writes, keep := st.keep }
         generalize hr : Disk.readEntries sd bat (some (pathJoin target (Tape.str "side" ++ digits i))) entries
-            { l := Disk.onBeginOfSide st.l i, mkdirs := st.mkdirs ++ [pathJoin target (Tape.str "side" ++ digits i)], writes := st.writes } = r at hw hside
+            { l := Disk.onBeginOfSide st.l i, mkdirs := st.mkdirs ++ [pathJoin target (Tape.str "side" ++ digits i)], writes := st.writes, keep := st.keep } = r at hw hside hkeep
         obtain ⟨st', oe⟩ := r
         cases oe with
         | some e => exact hside w hw
         | none =>
-          dsimp only at hw hside
-          exact ih (i + 1) { st' with l := Disk.onEndOfSide st'.l (Disk.computeUsage bat) } hside w hw
+          dsimp only at hw hside hkeep
+          have := ih (i + 1) { st' with l := Disk.onEndOfSide st'.l (Disk.computeUsage bat) } (by dsimp only; rw [hkeep]; exact hside) w hw
+          dsimp only at this
+          rw [hkeep] at this
+          exact this
 
 /-- **C18 (disk confinement)**: whatever the bytes of the image — any table, any catalog, any names —
     every path `--extract` writes is `destination/sideN/<one component without '/' and NUL>` -/
@@ -212,7 +279,7 @@ theorem disk_confined (fl : Disk.Flavour) (verbose : Bool) (archive : Str) (into
     have hfin : ∀ (r : Disk.RdState × Option PyErr), (Disk.finishRead r).writes = r.1.writes := by
       intro r; obtain ⟨s, o⟩ := r; cases o <;> rfl
     rw [hfin] at hw
-    exact readSides_writes _ img 0 _ (by intro w' hw'; simp at hw') w hw
+    exact (readSides_writes _ img 0 _ (by intro w' hw'; simp at hw') w hw).1
 
 /-- **C18 (listing is read-only)**: whatever the bytes of the image, `--list` writes nothing and
     creates no directory -/
@@ -245,8 +312,8 @@ theorem disk_list_readonly (fl : Disk.Flavour) (verbose : Bool) (raw : Bytes) :
         | error e => exact ⟨rfl, rfl⟩
         | ok entries =>
           dsimp only
-          have he := hent sd bat entries { l := Disk.onBeginOfSide st.l i, mkdirs := st.mkdirs, writes := st.writes }
-          generalize Disk.readEntries sd bat none entries { l := Disk.onBeginOfSide st.l i, mkdirs := st.mkdirs, writes := st.writes } = r at he
+          have he := hent sd bat entries { l := Disk.onBeginOfSide st.l i, mkdirs := st.mkdirs, writes := st.writes, keep := st.keep }
+          generalize Disk.readEntries sd bat none entries { l := Disk.onBeginOfSide st.l i, mkdirs := st.mkdirs, writes := st.writes, keep := st.keep } = r at he
           obtain ⟨st', oe⟩ := r
           cases oe with
           | some e => exact he
@@ -280,7 +347,9 @@ theorem readEntries_mkdirs (sd : Disk.Side) (bat : List Nat) (sp : Option Str) (
         · rfl
         · split
           · rfl
-          · exact ih _
+          · split
+            · rfl
+            · exact ih _
 
 /-- **C18 (directories)**: whatever the bytes of the image, the only directories `--extract` creates
     are `destination/sideN` -/
@@ -311,9 +380,9 @@ theorem disk_mkdirs_confined (fl : Disk.Flavour) (verbose : Bool) (archive : Str
           rw [hl] at hd
           dsimp only at hd
           have hm := readEntries_mkdirs sd bat (some (pathJoin target (Tape.str "side" ++ digits i))) entries
-            { l := Disk.onBeginOfSide st.l i, mkdirs := st.mkdirs ++ [pathJoin target (Tape.str "side" ++ digits i)], writes := st.writes }
+            { l := Disk.onBeginOfSide st.l i, mkdirs := st.mkdirs ++ [pathJoin target (Tape.str "side" ++ digits i)], writes := st.writes, keep := st.keep }
           generalize Disk.readEntries sd bat (some (pathJoin target (Tape.str "side" ++ digits i))) entries
-            { l := Disk.onBeginOfSide st.l i, mkdirs := st.mkdirs ++ [pathJoin target (Tape.str "side" ++ digits i)], writes := st.writes } = r at hd hm
+            { l := Disk.onBeginOfSide st.l i, mkdirs := st.mkdirs ++ [pathJoin target (Tape.str "side" ++ digits i)], writes := st.writes, keep := st.keep } = r at hd hm
           obtain ⟨st', oe⟩ := r
           dsimp only at hm
           cases oe with
